@@ -265,7 +265,7 @@ def explore5(cfg: dict) -> dict:
     for tc in range(L):
         for p in range(1, B + 1):
             if isinstance(sc[tc].kind[p], SInt):
-                ctx.assume(z3.And(sc[tc].kind[p].t >= 0, sc[tc].kind[p].t <= 3), 'fault kind in {none,warn,raise,raise SolutionError}')
+                ctx.assume(z3.And(sc[tc].kind[p].t >= 0, sc[tc].kind[p].t <= 4), 'fault kind in {none,RuntimeWarning,raise,raise SolutionError,UserWarning}')
                 ctx.assume(z3.And(sc[tc].fs[p].t >= 0, sc[tc].fs[p].t <= max(N, 1) - 1), 'fault statement in range')
     ctx.assume(z3.And(z3.Int('min_iter') >= 0, z3.Int('min_iter') <= B + 1), '0 <= min_iter <= max_iter+1')
     _, labs0 = _span_and_labels(cfg)
